@@ -100,14 +100,31 @@ type genResult struct {
 	out    map[string]string // band file -> content
 }
 
+// generate runs the generator and collects the output files THIS run wrote (an output file that was
+// lying in the directory and was not rewritten is a leftover, not output).
 func (e *env) generate(cli, dir string, files []string, extraEnv ...string) genResult {
+	before := map[string]time.Time{}
+	for _, f := range files {
+		if fi, err := os.Stat(filepath.Join(dir, bandOf(f))); err == nil {
+			before[bandOf(f)] = fi.ModTime()
+		}
+	}
+	start := time.Now()
 	r := drv.Run(dir, 5*time.Minute, extraEnv, cli, append([]string{"-l", "error"}, files...)...)
 	if r.Code == -2 {
 		drv.Broken("generator timed out in %s", dir)
 	}
 	res := genResult{code: r.Code, stderr: string(r.Out), out: map[string]string{}}
 	for _, f := range files {
-		if b, err := os.ReadFile(filepath.Join(dir, bandOf(f))); err == nil {
+		p := filepath.Join(dir, bandOf(f))
+		fi, err := os.Stat(p)
+		if err != nil {
+			continue
+		}
+		if old, had := before[bandOf(f)]; had && fi.ModTime().Equal(old) && fi.ModTime().Before(start) {
+			continue // untouched leftover
+		}
+		if b, err := os.ReadFile(p); err == nil {
 			res.out[bandOf(f)] = string(b)
 		}
 	}
@@ -170,22 +187,52 @@ func leftoverNames(dir string) map[string]bool {
 // explainedByLeftovers: every identifier that got a different allocator suffix has a base name
 // that a leftover output file declares or imports.
 func explainedByLeftovers(clean, other map[string]string, left map[string]bool) bool {
-	ids := func(m map[string]string) map[string]bool {
-		s := map[string]bool{}
-		for _, v := range m {
-			for _, id := range reIdent.FindAllString(v, -1) {
-				s[id] = true
+	toks := func(v string) []string {
+		return reIdent.FindAllString(reImportAlias.ReplaceAllString(v, "$1"), -1)
+	}
+	n := 0
+	for k, a := range clean {
+		ta, tb := toks(a), toks(other[k])
+		if len(ta) != len(tb) {
+			return false
+		}
+		for i := range ta {
+			if ta[i] == tb[i] {
+				continue
+			}
+			n++
+			ba, bb := reSuffix.ReplaceAllString(ta[i], ""), reSuffix.ReplaceAllString(tb[i], "")
+			if ba != bb || !left[ba] {
+				return false
 			}
 		}
-		return s
 	}
-	a, b := ids(clean), ids(other)
-	n := 0
-	for id := range b {
-		if !a[id] {
-			n++
-			if !left[reSuffix.ReplaceAllString(id, "")] {
-				return false
+	// import aliases that appear or disappear
+	for k, a := range clean {
+		al := func(v string) map[string]bool {
+			m := map[string]bool{}
+			for _, x := range reImportPath.FindAllStringSubmatch(v, -1) {
+				if x[1] != "" {
+					m[x[1]] = true
+				}
+			}
+			return m
+		}
+		ma, mb := al(a), al(other[k])
+		for x := range mb {
+			if !ma[x] {
+				n++
+				if !left[reSuffix.ReplaceAllString(x, "")] {
+					return false
+				}
+			}
+		}
+		for x := range ma {
+			if !mb[x] {
+				n++
+				if !left[reSuffix.ReplaceAllString(x, "")] {
+					return false
+				}
 			}
 		}
 	}
